@@ -63,18 +63,18 @@ def run_simple(ctx, cases, prop, chk_filter=None, signature=None, relation=None,
         if f["signature"] in shrunk or len(shrunk) >= 6 or len(f["ops"]) <= 2 or len(f["ops"]) > 400:
             continue
         shrunk.add(f["signature"])
-        cls = " ".join(f["predicate"]["value"].split(" ")[:2])
+        cls = " ".join(f["predicate"]["value"].split(" ")[:3])
 
         def still_fails(ops, cls=cls):
             io, _ = run_ops(ctx.harness, ops, timeout=120)
             if len(io) < len(ops):
                 io = io + ["missing"] * (len(ops) - len(io))
             if any(x in ("panic", "hang", "missing") for x in io):
-                return cls == "fails crash"
+                return cls.startswith("fails crash")
             lines = ["chk %s | %s" % (chk_variant(o) if chk_variant else o, x) for o, x in zip(ops, io)]
             vo, _ = run_ops(ctx.driver, lines, timeout=120)
             vo = [verdict_filter(v) if verdict_filter else v for v in vo]
-            return any(" ".join(v.split(" ")[:2]) == cls for v in vo)
+            return any(" ".join(v.split(" ")[:3]) == cls for v in vo)
         try:
             head, body = f["ops"][:1], f["ops"][1:]
             small = ddmin(body, lambda b: still_fails(head + b))
